@@ -2160,9 +2160,17 @@ func (t *Target) String() string {
 
 	var buf strings.Builder
 	_, _ = buf.WriteString("INTO ")
-	_, _ = buf.WriteString(t.Measurement.String())
-	if t.Measurement.Name == "" {
-		_, _ = buf.WriteString(":MEASUREMENT")
+	m := *t.Measurement
+	m.IsTarget = true
+	_, _ = buf.WriteString(m.String())
+	if m.Name == "" {
+		if m.Database == "" && m.RetentionPolicy == "" {
+			// The back-reference needs a prefix; an unqualified target
+			// without a name can only have been written as "".
+			_, _ = buf.WriteString(`""`)
+		} else {
+			_, _ = buf.WriteString(":MEASUREMENT")
+		}
 	}
 
 	return buf.String()
@@ -3567,6 +3575,10 @@ func (m *Measurement) String() string {
 		_, _ = buf.WriteString(QuoteIdent(m.SystemIterator))
 	} else if m.Regex != nil {
 		_, _ = buf.WriteString(m.Regex.String())
+	} else if !m.IsTarget {
+		// A source written as "" has an empty name; a target without a name
+		// is completed by Target.String.
+		_, _ = buf.WriteString(`""`)
 	}
 
 	return buf.String()
